@@ -19,7 +19,8 @@ CHECKS = {
     "C02": ("model_checking", "3 C02",
             "Every operation sequence deepen/make_children up to N on all 11 partition variants over a box pool with floating-point "
             "corner boxes and every split-dimension / split-fraction answer (bounded deviations), judged by exact bit-level and "
-            "rational-arithmetic oracles per expansion and per state; same oracles inside algorithm explorations.",
+            "rational-arithmetic oracles per expansion and per state; same oracles inside algorithm explorations, along root-to-leaf chains of 70-140 "
+            "splits on non-dyadic boxes (E-dive), and on argument forms JSON literals do not exercise (rows that are one list object, integer bounds).",
             "Finite box alphabet stands in for 'arbitrary real bounds'; NumPy linspace/arith trusted; magnitudes >1e300 not explored.",
             "explicit-state exploration of operation sequences (E-ops) on the real partition objects with canonical-state de-duplication"),
     "C03": ("model_checking", "3 C03",
@@ -115,7 +116,9 @@ CHECKS = {
             "Every point of a finite lattice (cell centres and boundaries generated by the library's own deterministic partitions on each "
             "objective's documented domain down to depth 13-16 in 1-D, 6-7 per axis in 2-D, plus corners, documented maximisers and their "
             "float neighbours; DoubleSine parameter grid; perturbed variants over the normal-draw menu) is evaluated: f finite, f <= fmax "
-            "exactly, evaluation pure (bit-identical twice, no random draw), fmax attained at the documented maximiser, wrong dimension rejected.",
+            "exactly, evaluation pure (bit-identical twice, no random draw), fmax attained at the documented maximiser, wrong dimension rejected; "
+            "plus every evaluation history of length <= 3-4 on one object (E-hist) and every ordered pair (class A at p, class B at q) across objects and "
+            "classes against values from a pristine process (E-xhist).",
             "The property quantifies over every real point; a finite lattice decides nothing off the lattice - hence level 'exploration', not model checking (DESIGN.md section 7).",
             "exhaustive evaluation over a finite input lattice (E-lattice); no claim beyond the lattice"),
 }
@@ -160,7 +163,7 @@ def main():
                      "kind_free_text": "hand-written stateless bounded-exhaustive explorer (CHESS-style script enumeration with deviation bounds) driving the real PyXAB objects in-process, reference models as lock-step checkers"}],
         "checks": checks,
         "not_applicable": na,
-        "notes": "Exit codes: 0 held (KNOWN-FINDING lines allowed), 1 VIOLATION, 2 harness error. Genuine defects repaired by 'fix:' commits in /repo and recorded in known_findings.json. The thorough tier has a wall-clock budget per check (XMC_BUDGET seconds, default 1500) and per task (XMC_TASK_CAP, default 600): an enumeration cut by it is reported in the evidence (exhaustive: false, caps_hit), never as a verdict.",
+        "notes": "Exit codes: 0 held (KNOWN-FINDING lines allowed), 1 VIOLATION, 2 harness error. Genuine defects repaired by 'fix:' commits in /repo and recorded in known_findings.json. The thorough tier has a wall-clock budget per check (XMC_BUDGET seconds, default 1500) and per task (XMC_TASK_CAP, default 600): an enumeration cut by it is reported in the evidence (exhaustive: false, caps_hit), never as a verdict. Algorithm-level checks C04-C13 also run 'by/' task families: the same oracle while a second instance of the same class (other parameters, other box) is constructed after the object under check and driven in lock-step with it (world.Bystander; DESIGN.md 9.3, sixth wave).",
     }
     with open(os.path.join(HERE, "MANIFEST.json"), "w") as f:
         json.dump(man, f, indent=1)
